@@ -744,7 +744,12 @@ def subterms(e):
 
 # Regions (dedicated-stream names) folded into the clean stream: permanently once the corresponding
 # fix: commit is in /repo, temporarily through C11_FOLD=a,b when validating a candidate patch.
-FOLDED = set(filter(None, os.environ.get("C11_FOLD", "").split(",")))
+FIXED_IN_REPO = {                      # region -> /repo fix: commit (funsor/adjoint.py)
+    "cat-part-name": "e4f2934", "add-broadcast": "1a4c2b1", "subs-free-var": "2224a5a",
+    "tape-key-collision": "d732c46", "binder-free-clash": "974fa44 (declines)",
+    "opt-rebinding": "2ff5c06 (declines)",
+}
+FOLDED = set(FIXED_IN_REPO) | set(filter(None, os.environ.get("C11_FOLD", "").split(",")))
 
 
 def violated(case, raw=False):
@@ -985,7 +990,9 @@ def check_case(ctx, case, use_driver=True, gate=True, label="clean"):
     else:
         case2, keys = case, r["leaves"]
     sz2 = case2["sz"]
-    lean_good = not (violated(case2, raw=True) - {"opt-rebinding", "cat-part-name", "tape-key-collision"})
+    # regions the tree-shaped Lean model is indifferent to (they concern the tape's keys / names)
+    lean_good = not (violated(case2, raw=True) - {"opt-rebinding", "cat-part-name", "tape-key-collision",
+                                                   "add-broadcast", "subs-free-var", "shared-binder"})
     # 3. the Lean model and spec on the same term
     model = None
     if use_driver:
@@ -1095,32 +1102,11 @@ FINDINGS = {
     "plate-zero": ("KF-adjoint-plate-zero",
                    "adjoint_reduce plate branch: adjoint of a product-reduced plate is 0 instead of the product of "
                    "the other entries where the entry itself is 0 (safediv turns 0/0 into 0)"),
-    "add-broadcast": ("KF-adjoint-add-broadcast",
-                      "adjoint_binary sum branch + tape aggregation: an operand of ⊕ that lacks a variable of the other "
-                      "operand receives out_adj without the multiplicity of the missing variable, e.g. "
-                      "sum_ij (x_i + y_j): adjoint of x is 1, derivative is |j|"),
-    "subs-free-var": ("KF-adjoint-subs-free-root-var",
-                      "adjoint_subs puts every input of out_adj that the leaf lacks (incl. free inputs of the root) "
-                      "into Scatter's reduced_vars; eager Scatter then overwrites instead of accumulating, e.g. "
-                      "(x(i=k)*y(b)).reduce(add,'k'): adjoint of x is y[last b] instead of sum_b y"),
-    "binder-free-clash": ("KF-adjoint-unmangle-capture",
-                          "AdjointTape.adjoint un-mangles bound names by stripping __BOUND_n: a bound variable whose "
-                          "base name is also a free input of the root is captured by the root's variable"),
-    "cat-part-name": ("KF-adjoint-cat-part-name",
-                      "adjoint_cat tests `part_name not in out_adj.inputs` (should be `name`) and slices by `name`: with "
-                      "part_name != name every part receives the whole adjoint summed over the concatenated axis"),
-    "tape-key-collision": ("KF-adjoint-tape-key-collision",
-                           "AdjointTape keys adjoint_values by the un-mangled eager value: the same renaming x(i=k) of the "
-                           "same leaf under two different binders named k yields one key for two tape entries, and the "
-                           "accumulated adjoint is propagated twice, e.g. (sum_k x(i=k) y(k)) * (sum_k x(i=k) z(k))"),
     "scatter-number-shortcut": ("KF-adjoint-scatter-number-shortcut",
                                 "tensor.eager_scatter_number returns the source for any injective all-Variable substitution, "
                                 "also when the renamed-to variable is not in reduced_vars (it survives as an axis of the "
                                 "leaf): L(x='a') with L over (x, a), root = trace = L(x='a').reduce(add,'a'): the adjoint of L "
                                 "is all ones instead of the identity"),
-    "opt-rebinding": ("KF-adjoint-unmangle-rebinding",
-                      "after apply_optimizer hoists two reductions over the same base name into one Contraction, "
-                      "AdjointTape.adjoint's un-mangling conflates the two binders"),
 }
 
 
@@ -1345,7 +1331,11 @@ def correspond(ctx):
                 "and product-reductions over random subsets at random depths; any subset of the remaining variables "
                 "reduced at the root; semirings (add,mul) exact and (logaddexp,add) via exp with rtol 1e-9; driven by "
                 "forward_backward, by apply_optimizer under the tape, and by apply_optimizer under reflect. The clean "
-                "stream satisfies the hypotheses `Good` of adjoint_sound; seven dedicated streams violate exactly one. "
+                "stream satisfies the hypotheses `Good` of adjoint_sound; two dedicated streams (the open findings "
+                "plate-zero, scatter-number-shortcut) violate exactly one.  The regions of the six findings fixed in "
+                "/repo (⊕ of differently-shaped operands, extra root inputs at a Subs node, Cat with part_name != "
+                "name, the same renaming under two binders, bound names clashing with root inputs / rebinding under "
+                "the optimizer — the last two now decline) are part of the clean stream. "
                 "Cat parts are drawn WITH repetition (the same Tensor twice, adjacent or not, sizes 1-3) and may also "
                 "occur elsewhere in the term (second Cat, or through Subs); an aliasing block builds every "
                 "same-object-twice shape (x⊗x, x⊕x, shared Binary/Reduce/Subs node under two parents, Cat(x,x), "
@@ -1358,7 +1348,7 @@ def correspond(ctx):
         aliasing_block(ctx)
     n = 700 if ctx.tier == "quick" else 12000
     for it in range(n):
-        if "tape-key-collision" in FOLDED and it % 10 == 0:
+        if "tape-key-collision" in FOLDED and it % 25 == 0:
             c = gen_collision(ctx.rng)
             c["opt"] = None
         else:
